@@ -5,3 +5,4 @@ import Proofs.C15
 import Proofs.C19
 import Proofs.C20
 import Proofs.C14
+import Proofs.C12
